@@ -57,6 +57,11 @@ CLAIMED = {
    note="Trusted: Lean kernel; Spec/DmaSpec.lean; memory returns data in command order. CSR front-end not modelled.",
    technique="Lean 4 proof (reservation invariant) + cycle-exact co-simulation + Lean stream monitors",
    design="§6 C12"),
+ "C07": dict(
+   text="Cycle-accurate Lean models of LiteDRAMNativePortDownConverter and LiteDRAMNativePortUpConverter including the LiteX stream converters and FIFOs inside them, co-simulated against the real converters (up 1:2..1:32, down 2:1..8:1, both/write/read, reverse) with a controller side that behaves like the crossbar (commands queued, data strobes as unconditional pulses in command order, long stalls with several commands outstanding); the port-memory specification (Spec/PortMemory) is evaluated on the user side and the controller-side memory compared through the byte-addressed view; theorems for every schedule: down-converter command expansion (none lost/duplicated/reordered) and write-beat order, up-converter select mask and byte-enable masking, word/chunk view round-trips; the up-converter's misplacement of non-ascending addresses is proved on the model by two witnesses that are replayed on the real converter (known finding).",
+   note="Trusted: Lean kernel; Spec/PortMemory.lean; controller-side stub written from crossbar.py; master obeys the port rules of the property. Equal-width path (plain connect) not modelled.",
+   technique="Lean 4 proof (FSM/trace invariants by induction over schedules, refuting witnesses by kernel evaluation) + cycle-exact co-simulation + Lean port-memory specification evaluated on implementation runs",
+   design="§6 C07"),
  "C14": dict(
    text="Cycle-accurate Lean models of the PRBS31/counter Generator, _LiteDRAMBISTGenerator and _LiteDRAMBISTChecker (composed with the DMA engine models), co-simulated against the real cores and their CSR wrappers on native and AXI ports of 8..128 bits under random port timings, cascade stalls, spurious start strobes and resets; theorems for every schedule: the generator hands exactly the run's sequence (seqAddr i, seqData i) to the DMA engine, the checker's errors register equals the number of positions whose returned word differs, which over a faithful memory is 0 without repeated addresses and k for k corrupted positions; address theorems (8-bit ports inside [base,end); wider ports inside the code's mask window; the full range claim is refuted by a Lean witness that is replayed on the real generator: known finding). The specification (Spec/BistSpec) is evaluated on the implementation's port traffic and error counts.",
    note="Trusted: Lean kernel; Spec/BistSpec.lean; CSR shims; memory returns read data in command order. AsyncFIFO CDC of the wrappers and the Pattern generator/checker are not modelled.",
